@@ -72,7 +72,7 @@ def run(ctx, chk):
     ED = GramEval(GD)
     chk.rule("C12.R1", "assembler increment == loader increment == bytes stored", floor=9)
     chk.rule("C12.R2", "a data label is bound to the counter before the increment", floor=8)
-    chk.rule("C12.R3", "dw lanes low-then-high; strings byte per character", floor=4)
+    chk.rule("C12.R3", "dw lanes low-then-high; strings byte per character", floor=2)
     chk.rule("C12.R4", "counter arithmetic cannot overflow unnoticed", floor=8)
     chk.rule("C12.R5", "DS is reset to 0 between loading data and executing code", floor=1)
     chk.rule("C12.R6", "data labels / OFFSET use the bound counter value unmodified (u16)", floor=3)
